@@ -80,8 +80,10 @@ def _skeleton(ctx, K, nh, nl, nb, ns, ne, order="file"):
         x, t, ln = ctx.int("lx%d" % i, 0, 511), ctx.real("lt%d" % i), ctx.real("llen%d" % i)
         ctx.assume(ln >= 0)
         hs, vol = ctx.int("lhs%d" % i, 0, 15), ctx.int("lvol%d" % i, 0, 100)
-        objs.append("%s,192,%s,128,%s,%s:0:0:0:%s:" % (tk(x), tk(t), tk(hs), tk(t + ln), tk(vol)))
-        spec["holds"].append(dict(x=x, t=t, len=ln, hitsound=hs, sample_set=0, addition=0, index=0, volume=vol, file=""))
+        ss, ad, ix = ctx.int("lss%d" % i, 0, 3), ctx.int("lad%d" % i, 0, 3), ctx.int("lix%d" % i, 0, 9)
+        f = "ln%d.wav" % i if i % 2 else ""
+        objs.append("%s,192,%s,128,%s,%s:%s:%s:%s:%s:%s" % (tk(x), tk(t), tk(hs), tk(t + ln), tk(ss), tk(ad), tk(ix), tk(vol), f))
+        spec["holds"].append(dict(x=x, t=t, len=ln, hitsound=hs, sample_set=ss, addition=ad, index=ix, volume=vol, file=f))
     for i in range(nb):
         t, code = ctx.real("bt%d" % i), ctx.real("bcode%d" % i)
         ctx.assume(code > 0)
@@ -236,7 +238,8 @@ def _chart(ctx, K, nh, nl, nb, ns, ne, perm=False):
     for i in range(nl):
         ln = ctx.real("llen%d" % i)
         ctx.assume(ln >= 0)
-        holds.append(C["Hold"](ctx.real("lt%d" % i), ctx.int("lc%d" % i, 0, K - 1), ln, hitsound_set=2, volume=ctx.int("lvol%d" % i, 0, 100)))
+        holds.append(C["Hold"](ctx.real("lt%d" % i), ctx.int("lc%d" % i, 0, K - 1), ln, hitsound_set=2, sample_set=1 + i % 3, addition_set=2 - i % 3, custom_set=4 + i,
+                               volume=ctx.int("lvol%d" % i, 0, 100), hitsound_file="" if i % 2 else "l%d.wav" % i))
     bpms = []
     for i in range(nb):
         b = ctx.real("bpm%d" % i)
@@ -300,7 +303,7 @@ def ob_colmap(K, ctx):
     ctx.observe("col", c)
 
 
-META_VALUES = ["plain", "with space", "a:b", "a:b:c", ":lead", "trail:", "  padded  ", "é ü 東方", "1,2", "semi;colon", ""]
+META_VALUES = ["plain", "with space", "a:b", "a:b:c", ":lead", "trail:", "  padded  ", "é ü 東方", "1,2", "semi;colon", "", "Re: Zero", "x : y: z", "a //b"]
 
 
 def ob_meta(key, value, ctx):
